@@ -130,6 +130,10 @@ func runC12(t *testing.T, spec RunSpec) *RunResult {
 	bubble(t, func() {
 		w := netsim.NewWorld(spec.Seed)
 		w.Serial = cfg.Serial
+		if !cfg.Serial {
+			w.MaxConc = 4
+			w.JoinProposals = true
+		}
 		trace(spec, res.Cfg, w)
 		d := NewDeployment(w, cfg.Deploy)
 		d.Build()
